@@ -8,6 +8,7 @@ import (
 	"path/filepath"
 	"strings"
 	"sync"
+	"syscall"
 	"time"
 
 	"verifharness/spec"
@@ -206,10 +207,18 @@ func RunBatch(env *Env, workdir string, jobs []*Job) (map[string]map[string]*VRe
 			args = append(args, "-race")
 		}
 		args = append(args, "-o", b+string(os.PathSeparator), "./...")
-		cmd := exec.Command("go", args...)
-		cmd.Dir = m
-		cmd.Env = append(os.Environ(), "GOFLAGS=-mod=mod", "GOWORK=off", "GOCACHE="+GenCacheDir())
-		outb, _ := cmd.CombinedOutput()
+		var outb []byte
+		for try := 0; try < 3; try++ {
+			cmd := exec.Command("go", args...)
+			cmd.Dir = m
+			cmd.Env = append(os.Environ(), "GOFLAGS=-mod=mod", "GOWORK=off", "GOCACHE="+GenCacheDir())
+			outb, _ = cmd.CombinedOutput()
+			// a build cache that lost files under the running build (another
+			// process trimmed it) heals itself: build again
+			if o := string(outb); !(strings.Contains(o, "no such file or directory") && strings.Contains(o, "could not import")) {
+				break
+			}
+		}
 		// attribute diagnostics to packages
 		cur := ""
 		errs := map[string]string{}
@@ -331,9 +340,29 @@ func GenCacheDir() string {
 	return filepath.Join(base, "verif-gen-gocache")
 }
 
+// genCacheLock keeps the shared lock on the cache for the life of the process.
+var genCacheLock *os.File
+
 // TrimGenCache removes the generated-code build cache when it exceeds limit bytes.
 func TrimGenCache(limit int64) {
 	dir := GenCacheDir()
+	// Checks may run side by side and share this cache: every run holds a
+	// shared lock on <dir>.lock for its lifetime (LockGenCache) and the cache
+	// is only removed by a run that gets the lock exclusively, i.e. alone.
+	lf, err := os.OpenFile(dir+".lock", os.O_CREATE|os.O_RDWR, 0o644)
+	if err != nil {
+		return
+	}
+	if syscall.Flock(int(lf.Fd()), syscall.LOCK_EX|syscall.LOCK_NB) != nil {
+		// somebody is building with it: leave it alone this time
+		syscall.Flock(int(lf.Fd()), syscall.LOCK_SH)
+		genCacheLock = lf
+		return
+	}
+	defer func() {
+		syscall.Flock(int(lf.Fd()), syscall.LOCK_SH) // downgrade: held until the process ends
+		genCacheLock = lf
+	}()
 	var total int64
 	filepath.WalkDir(dir, func(p string, d os.DirEntry, err error) error {
 		if err == nil && !d.IsDir() {
